@@ -172,8 +172,10 @@ func ExecuteRace(ctx context.Context, members []Member) (proto.Message, int, err
 // executeEach runs each of the members in their own goroutine.
 // The returned chan will contain the responses in completion order.
 // The chan will be closed once all members have returned a result.
+// The chan has room for every response, so each goroutine started here ends once its member returns
+// even if the caller stops receiving early (ExecuteFast, ExecuteRace).
 func executeEach(ctx context.Context, members []Member) <-chan memberResponse {
-	responses := make(chan memberResponse)
+	responses := make(chan memberResponse, len(members))
 	var all sync.WaitGroup
 	all.Add(len(members))
 
